@@ -35,7 +35,7 @@ func init() {
 	}})
 }
 
-func (p *c12) NumCases(tier string, seed int64) int { return tierN(tier, 1500, 40000) }
+func (p *c12) NumCases(tier string, seed int64) int { return tierN(tier, 4000, 160000) }
 
 func c12Cfg(r *core.Rng) yang.GenCfg {
 	cfg := yang.DefaultGenCfg()
